@@ -266,3 +266,7 @@ def run(ctx):
     ctx.guard(r13_1)
     ctx.guard(r13_2)
     ctx.guard(r13_4)
+    # restart from the *reported* final state: the value reported at a step end must be the solver's own state bit for
+    # bit (float-exact reduction of the interpolation formula at its end point; rule of C12)
+    from . import c12
+    ctx.guard(c12.r12_8)
